@@ -615,7 +615,7 @@ func (c *Ctx) c18Items() {
 }
 
 func runC18(c *Ctx) {
-	c.R.Rule = "pointer-field option structures (workbook, calculation, sheet properties, sheet view, page layout, page margins): random field subsets with values from per-field domains incl. invalid ones, 1..3 consecutive sets per file; every supplied field reads back, every other field keeps the value the getter reported before, a rejected set changes nothing; then unrelated edits and save/reopen. Value structures (document/application properties, header/footer, dimension) with texts needing XML escaping. Sheet/workbook protection under XOR and SHA/MD algorithms with right and wrong passwords. Defined-name set/delete histories against the extracted model. Data validations with formulas needing escaping, comments, hyperlinks, tables, conditional formats: read back, persist, delete exactly one. Panes: 1..3 consecutive SetPanes calls (freeze/split/neither, with and without selections), GetPanes answers the last. Pictures: several per cell and per sheet, bytes/extension/alternative text read back, DeletePicture removes exactly that cell's pictures. non-trivial = setter accepted"
+	c.R.Rule = "pointer-field option structures (workbook, calculation, sheet properties, sheet view, page layout, page margins): random field subsets with values from per-field domains incl. invalid ones, 1..3 consecutive sets per file; every supplied field reads back, every other field keeps the value the getter reported before, a rejected set changes nothing; then unrelated edits and save/reopen. Value structures (document/application properties, header/footer, dimension) with texts needing XML escaping. Sheet/workbook protection under XOR and SHA/MD algorithms with right and wrong passwords. Defined-name set/delete histories against the extracted model. Data validations with formulas needing escaping, comments, hyperlinks, tables, conditional formats: read back, persist, delete exactly one. Items of seven kinds (comments, validations, conditional formats, tables, hyperlinks, pictures, scoped names) added on one or two sheets, saved or not, every subset of three deleted, saved and reopened: the getter shows exactly what was not deleted. Panes: 1..3 consecutive SetPanes calls (freeze/split/neither, with and without selections), GetPanes answers the last. Pictures: several per cell and per sheet, bytes/extension/alternative text read back, DeletePicture removes exactly that cell's pictures. non-trivial = setter accepted"
 	n := 60
 	if c.Thorough() {
 		n = 400
@@ -626,5 +626,6 @@ func runC18(c *Ctx) {
 	c.c18DefinedNames(n * 2)
 	c.c18Items()
 	c.c18Panes(n * 3)
+	c.c18DeleteAfterSave()
 	c.c18Pictures(n)
 }
